@@ -202,13 +202,13 @@ Qed.
 Definition pin_text (c : constraint) : string := match c_pin c with EmptyString => "" | p => "@" ++ p end.
 
 (* the request matches the grammar and is not rewritten by the soname special
-   case (every request that is not a "so:" name, or carries no '=') *)
+   case (every request that is not a "so:" name, or carries no operator) *)
 Definition plain_request (o : string) : Prop :=
   full_match lock_package_name_regex o = true /\ so_rewrite (bytes_of_string o) = bytes_of_string o.
 
 Lemma plain_request_not_so o : full_match lock_package_name_regex o = true ->
   strip_prefix (bytes_of_string "so:") (bytes_of_string o) = None -> plain_request o.
-Proof. intros H E. split; [exact H|]. unfold so_rewrite. rewrite E. reflexivity. Qed.
+Proof. intros H E. split; [exact H|]. unfold so_rewrite, so_rewrite_with. rewrite E. reflexivity. Qed.
 
 Lemma namechar_not_op l : forallb is_namechar l = true -> forallb (fun c => negb (is_opchar c)) l = true.
 Proof. intro H. rewrite forallb_forall in *. intros c Hc. specialize (H c Hc). unfold is_namechar in H. apply andb_true_iff in H. tauto. Qed.
